@@ -27,6 +27,7 @@ THEOREMS = [
     "C14_copy_chan_atomic",
     "C14_dag_atomic",
     "C14_inherits",
+    "C14_crossing_inherited",
     "C14_copy_io_atomic_partial",
     "C14_replace_atomic_partial",
     "C14_dag_atomic_partial",
@@ -94,28 +95,19 @@ def _install_patch():
 
 
 def detect_cfg():
-    """one flag per proposed repair, recognised by a token of the patched source"""
-    import inspect
+    """
+    The variant of the model the real tree is compared with.  All seven repairs are in /repo (a9e5065, 803bad0,
+    02da358, 35d69a0, bba6c5f, 07c1304, 3067900), so the model is `Cfg.repaired`, whatever the source looks like:
+    recognising repairs by tokens of the source (as was done while they were being applied one by one) made
+    behaviour-preserving refactorings of `replace_child` / the copy helpers look like reverted repairs.
+    `C14_CFG=1010111` overrides (for replaying the history of the findings).
+    """
+    import os
 
-    from pyiron_workflow import topology
-    from pyiron_workflow.io import HasIO
-    from pyiron_workflow.nodes.composite import Composite
-    def src(f):
-        try:
-            return inspect.getsource(f)
-        except Exception:  # noqa: BLE001
-            return ""
-
-    rc = src(Composite.replace_child)
-    return [
-        "already_connected" in src(HasIO._copy_connections),
-        "copied_inputs" in src(HasIO._copy_values),
-        "_ensure_path_is_not_cyclic(self, replacement_node)" in rc,
-        "_ensure_valid_value_links" in rc,
-        "_seat_replacement" in rc,
-        "saved_connections" in src(topology._set_new_run_connections_with_fallback_recovery),
-        "_ensure_io_survives_replacement" in rc,
-    ]
+    o = os.environ.get("C14_CFG", "")
+    if len(o) == 7 and set(o) <= {"0", "1"}:
+        return [ch == "1" for ch in o]
+    return [True] * 7
 
 
 # ----------------------------------------------------------------------------- world
@@ -230,6 +222,14 @@ def _build(case):
                     known.add(id(ch))
                     names[f"{name}/{label}"] = ch
                     order.append(f"{name}/{label}")
+    for src, out, dst, inp in case.get("xdata", []):
+        try:
+            names[dst].inputs[inp].connect(names[src].outputs[out])
+        except Exception:  # noqa: BLE001
+            pass
+    for name in case.get("executors", []):
+        if name in names:
+            names[name].executor = ("pwh_never_used", (), {})
     w.names, w.order, w.comp = names, order, comp
     w.nodes = [names[k] for k in order]
     w.nid = {id(n): i for i, n in enumerate(w.nodes)}
@@ -377,6 +377,17 @@ def _admit_lines(w, done):
 def _sync_lines(w, s, only_nonempty=False, last=None):
     """set-up / re-synchronisation lines; with `last` (the state the model is known to be in) only what differs"""
     lines = []
+    if last is not None:
+        # ownership (operations outside this model: pull, add_child, remove_child): labels first, then the children lists
+        for i, lab in enumerate(s["label"]):
+            if last["label"][i] != lab:
+                lines.append(f"setlabel {i} {lab}")
+        for i, par in enumerate(s["parent"]):
+            if last["parent"][i] != par:
+                lines.append(f"setparent {i} {_o(par)}")
+        for p, kids in s["children"].items():
+            if last["children"].get(p) != kids:
+                lines.append(f"setkids {p} " + " ".join(str(c) for _l, c in kids))
     for i, c in enumerate(s["cached"]):
         if (last is not None and last["cached"][i] != c) or (last is None and (c or not only_nonempty)):
             lines.append(f"cached {i} {int(c)}")
@@ -582,6 +593,25 @@ def run_impl(case):
                         args[0].running = False
                     elif kind == "run":
                         args[0].run()
+                    elif kind == "setexec":
+                        args[0].executor = ("pwh_never_used", (), {}) if (len(op) < 3 or op[2]) else None
+                    elif kind == "xconnect":
+                        args[0].inputs[op[2]].connect(args[2].outputs[op[4]])
+                    elif kind in ("pull", "removechild", "addchild"):
+                        before = _snapshot(w)
+                        res = "ok"
+                        try:
+                            if kind == "pull":
+                                args[0].pull()
+                            elif kind == "removechild":
+                                args[0].remove_child(args[1])
+                            else:
+                                args[0].add_child(args[1])
+                        except Exception as e:  # noqa: BLE001
+                            res = type(e).__name__
+                        snaps.append({"op": op, "ids": [], "res": res if res != "ok" else "done", "before": before,
+                                      "after": _snapshot(w), "comp_kind": "-"})
+                        bump(f"res:{kind}:{res}")
                     elif kind == "start":
                         args[0].starting_nodes = [w.names[x] for x in op[2]]
                 except Exception:  # noqa: BLE001
@@ -679,7 +709,7 @@ def nontrivial(case, r):
     for s in r.get("snaps", []):
         if s["res"] == "run":
             continue
-        if s["before"] != s["after"] or s["res"] != "ok":
+        if s["before"] != s["after"] or s["res"] not in ("ok", "done"):
             return True
     return False
 
@@ -753,6 +783,10 @@ def oracle(case, r):
                               f"built afresh with the replacement in place: {diff}",
                               "signature": {"clause": "run-result", "trigger": "replace"}})
             continue
+        if res == "done" or kind in ("removechild", "addchild"):
+            continue  # set-up operations (their refusals are C13's subject)
+        if kind == "pull" and res not in ("ValueError", "CircularDataFlowError"):
+            continue  # only a failed DERIVATION of the flow is an edit of C14; a failing node run is not
         if res != "ok":
             extra = [s["ids"][0]] if kind == "copyio" else []
             delta = _atomic_delta(r, s, extra)
@@ -1023,6 +1057,68 @@ def _chain_case(rng, tier):
     return case
 
 
+def _cross_case(rng, tier):
+    """connections that CROSS a composite border: a workflow-level node reads from inside the macro child, a node inside
+    the macro reads from the workflow level; replace at both levels, derive flows, pull"""
+    children = [["u", "Pxy"], ["m", "MacIn"], ["d", "Pxy"], ["e", "Pxy"]]
+    data = [["u", "o", "m", "p"]] if rng.random() < 0.6 else []
+    if rng.random() < 0.6:
+        data.append(["m", "r1", "e", "x"])
+    xdata = []
+    if rng.random() < 0.8:
+        xdata.append([rng.choice(["m/a", "m/b"]), "o", "d", rng.choice(["x", "y"])])  # outside reads the inside
+    if rng.random() < 0.6:
+        xdata.append([rng.choice(["u", "d"]), "o", rng.choice(["m/a", "m/b"]), "y"])  # inside reads the outside
+    if rng.random() < 0.3:
+        xdata.append(["m/a", "o", "e", "y"])
+    rng.shuffle(xdata)
+    case = {"top": "wf", "children": children, "data": data, "xdata": xdata, "prewire": rng.random() < 0.3,
+            "cands": [["r0", "Qxy"], ["r1", "Pxy"], ["r2", rng.choice(["Px", "Mpq", "MacIn"])]], "ops": []}
+    for _ in range(rng.randint(1, 3)):
+        r = rng.random()
+        if r < 0.4:
+            case["ops"].append(["replace", "m", rng.choice(["m/a", "m/b"]), rng.choice(["r0", "r1", "r2"])])
+        elif r < 0.75:
+            case["ops"].append(["replace", "@wf", rng.choice(["d", "e", "u", "m"]), rng.choice(["r0", "r1", "r2"])])
+        elif r < 0.9:
+            case["ops"].append(["dag", rng.choice(["@wf", "m"])])
+        else:
+            case["ops"].append(["copyio", rng.choice(["r0", "r1"]), rng.choice(["d", "m/a", "m/b"]), True, False])
+    return case
+
+
+def _pull_case(rng, tier, exec_at=None):
+    """failed derivations of the execution flow during a PULL: an executor somewhere in the data tree (on every tree node
+    in turn, the tree is a set), cyclic data; inside a workflow and on parentless graphs; then more edits"""
+    n = rng.randint(3, 5)
+    labs = LABELS[:n]
+    data = []
+    for j in range(1, n):
+        for i in rng.sample(range(j), min(rng.choice([1, 1, 2]), j)):
+            data.append([labs[i], "o", labs[j], rng.choice(["x", "y"])])
+    case = {"top": "wf", "children": [[l, "Pxy"] for l in labs], "data": data, "prewire": rng.random() < 0.4,
+            "cands": [["r0", "Pxy"], ["r1", "Pxy"], ["r2", "Pxy"], ["r3", "Qxy"]], "ops": []}
+    ops = case["ops"]
+    # a parentless graph next to it: r0 -> r1 -> r2
+    ops.append(["connect", "r1", "x", "r0", "o"])
+    ops.append(["connect", "r2", "x", "r1", "o"])
+    if rng.random() < 0.4:
+        ops.append(["sconnect", "r2", "run", "r0"])
+    r = rng.random()
+    if r < 0.6:
+        ops.append(["setexec", exec_at if exec_at is not None else rng.choice(labs + ["r0", "r1"])])
+    elif r < 0.8:
+        i, j = sorted(rng.sample(range(n), 2))
+        ops.append(["connect", labs[i], "y", labs[j], "o"])  # a data cycle
+    for _ in range(rng.randint(1, 3)):
+        ops.append(["pull", rng.choice(labs[1:] + ["r2", "r1"])])
+    if rng.random() < 0.4:
+        ops.append(["replace", "@wf", rng.choice(labs), "r3"])
+    if rng.random() < 0.3:
+        ops.append(["dag", "@wf"])
+    return case
+
+
 def _macro_case(rng, tier):
     n = rng.randint(2, 4)
     mac = rng.choice(["MacU", "MacT"])
@@ -1138,6 +1234,14 @@ def gen_cases(rng, tier):
         yield _keys_case(rng, tier)
     for _ in range(30 if quick else 800):
         yield _chain_case(rng, tier)
+    for _ in range(40 if quick else 1000):
+        yield _cross_case(rng, tier)
+    for _ in range(40 if quick else 1000):
+        yield _pull_case(rng, tier)
+    if not quick:
+        for lab in LABELS[:5] + ["r0", "r1"]:
+            for _ in range(20):
+                yield _pull_case(rng, tier, exec_at=lab)
     if not quick:
         yield from _exhaustive()
     for lines in (["frobnicate 1 2", "replace 0 1", "copyio 0 1 2 3", "dag x"], ["cfg 1 1", "replace a b c", "dag 0 T 1"]):
@@ -1219,6 +1323,14 @@ def corpus():
     # a value-link chain that gets stricter downstream: hard copy of the value "text"
     yield {"top": "wf", "children": [["s", "Mpq"]], "data": [], "vals": [["s", "q", "text"], ["s", "p", 9]],
            "cands": [["r0", "MacChain"]], "ops": [["copyio", "r0", "s", True, True], ["copyio", "r0", "s", True, False]]}
+    # a connection crossing the border of the macro: replace the inner end, then the outer end
+    yield {"top": "wf", "children": [["u", "Pxy"], ["m", "MacIn"], ["d", "Pxy"]], "data": [["u", "o", "m", "p"]],
+           "xdata": [["m/a", "o", "d", "x"], ["u", "o", "m/b", "y"]], "cands": [["r0", "Qxy"], ["r1", "Pxy"]],
+           "ops": [["replace", "m", "m/a", "r0"], ["replace", "@wf", "d", "r1"], ["dag", "@wf"]]}
+    # a pull whose data tree holds an executor (not on the first node of the set): refused, labels as before
+    yield {"top": "wf", "children": [["a", "Pxy"], ["b", "Pxy"], ["c", "Pxy"], ["d", "Pxy"]],
+           "data": [["a", "o", "b", "x"], ["b", "o", "c", "x"], ["c", "o", "d", "x"]], "cands": [],
+           "ops": [["setexec", "b"], ["pull", "d"], ["setexec", "b", False], ["setexec", "a"], ["pull", "d"], ["pull", "c"]]}
     # D8: recovery of the flow derivation on a cyclic data graph reverses firing order
     yield {"top": "wf", "children": [["a", "Pxy"], ["b", "Pxy"], ["c", "Pxy"]],
            "data": [["a", "o", "b", "x"], ["a", "o", "c", "x"]], "prewire": True, "cands": [],
